@@ -1,3 +1,2 @@
--- This module serves as the root of the `AgdbStorage` library.
--- Import modules here that should be built as part of the library.
-import AgdbStorage.Basic
+import AgdbStorage.Model.Bytes
+import AgdbStorage.Model.Wal
